@@ -254,43 +254,48 @@ def check_K(chk, f, o, st, K):
 
 
 def check_guard(chk, f, o, cfg, st, K):
-    """x[:-K] with K == 0 is the empty slice: the K-store must be unreachable for K == 0 and K == 0 must be handled."""
+    """x[:-K] with K == 0 is the empty slice: the K-store must be unreachable for K == 0 and K == 0 must be handled.
+    Decided on the CFG: an `if` that dominates the store and whose test is decided by K == 0 (evaluated by the mini evaluator with
+    K = 0; tests that need other values are skipped) protects the store when the store cannot be reached from the branch taken for
+    K == 0 without passing a new definition of K.  Early returns, if/else, positive guards and their negations are all the same here."""
+    from ..core.minieval import evaluate, CannotEvaluate
     Kt = A.text(K)
-    guards = []
-    for n in A.walk_local(f.node, include_self=False):
-        if isinstance(n, ast.If):
-            t = A.text(n.test)
-            if Kt in t:
-                guards.append(n)
-    ok = False
-    why = f"no test on `{Kt}` protects the store"
-    node = cfg.node_of.get(st)
-    for g in guards:
-        t = g.test
-        tt = A.text(t)
-        # positive guard dominating the store: `0 < K < ...`, `K > 0`
-        if (tt.startswith(f"0 < {Kt}") or tt.startswith(f"{Kt} > 0") or f"{Kt} >= 1" in tt) and st in list(ast.walk(g)):
-            ok = True
-        # early exit on K == 0: if K == 0: ... return
-        if tt == f"{Kt} == 0" and any(isinstance(b, ast.Return) for b in g.body) and g.lineno < st.lineno:
-            ok = True
-        # no-truncation early exit for the multiplets variant: if K >= len(s): return
+    b = A.local_bindings(f.node)
+    kdefs = [d for d, v, k in b.get(Kt, []) if d in cfg.node_of] if isinstance(K, ast.Name) else []
+    guards = [n for n in A.walk_local(f.node, include_self=False) if isinstance(n, ast.If) and any(isinstance(x, ast.Name) and x.id == Kt for x in ast.walk(n.test))]
     idx_kind = o.slice_kind(st.targets[0].slice.slice)[0]
+    protected = False
+    handled = False
+    why = f"no test on `{Kt}` protects the store"
+    for g in guards:
+        try:
+            taken_body = bool(evaluate(g.test, {Kt: 0}))
+        except CannotEvaluate:
+            continue
+        taken = g.body if taken_body else g.orelse
+        if cfg.node_of.get(g) is None or not cfg.must_pass([st], [cfg.node_of[g]]):
+            continue
+        first = next((x for x in taken if x in cfg.node_of), None)
+        if first is None:
+            # empty branch: control continues after the if; the store is protected only if it lies inside the other branch
+            other = g.orelse if taken_body else g.body
+            inside_other = any(st is x for b_ in other for x in ast.walk(b_))
+            reach = not inside_other
+        else:
+            reach = first is st or cfg.path_exists(first, st, avoiding=[d for d in kdefs if d is not st]) or any(st is x for x in ast.walk(first))
+        if not reach:
+            protected = True
+        for b_ in taken:
+            for x in ast.walk(b_):
+                if isinstance(x, ast.Assign) and isinstance(x.value, ast.Constant) and x.value.value is False and ("._data" in A.text(x.targets[0]) or ".data" in A.text(x.targets[0])):
+                    handled = True
     if idx_kind in ("upto", "from"):
-        ok = True   # x[:K] / x[K:] are well-defined for K == 0
+        protected = True   # x[:K] / x[K:] are well-defined for K == 0
         why = ""
     else:
-        # ... and the case K == 0 must discard everything instead
-        handled = False
-        for g in guards:
-            if A.text(g.test) in (f"{Kt} == 0", f"not {Kt}", f"{Kt} < 1", f"{Kt} <= 0"):
-                for b in g.body:
-                    if isinstance(b, ast.Assign) and isinstance(b.value, ast.Constant) and b.value.value is False \
-                            and "._data" in A.text(b.targets[0]):
-                        handled = True
         chk.verdict("D3", (f, st), f"{Kt} == 0 masks the whole block/spectrum", True if handled else False,
-                    f"{f.short}: no branch `{Kt} == 0` sets the whole block/spectrum of the mask to False")
-    chk.verdict("D3", (f, st), f"K={Kt} > 0 at `{A.short(st, 60)}`", True if ok else False,
+                    f"{f.short}: no branch taken for `{Kt} == 0` sets the whole block/spectrum of the mask to False")
+    chk.verdict("D3", (f, st), f"K={Kt} > 0 at `{A.short(st, 60)}`", True if protected else False,
                 f"`[:-{Kt}]` is the empty slice for {Kt} == 0: nothing would be discarded when everything should be; {why}")
 
 
